@@ -327,7 +327,8 @@ def main():
     light = [j for j in jobs if j.mem <= HEAVY]
     heavy_cap = max([j.mem for j in heavy] or [0])
     light_cap = max([j.mem for j in light] or [0])
-    n_heavy = min(len(heavy), max(1, (mem_total // 3) // max(heavy_cap, 1))) if heavy else 0
+    share = 3 if len(light) > 3 * len(heavy) else 4
+    n_heavy = min(len(heavy), max(1, (mem_total * (share - 1) // share if share == 4 else mem_total // 3) // max(heavy_cap, 1))) if heavy else 0
     n_light = 0
     if light:
         n_light = max(1, min(args.lanes, len(light), (mem_total - n_heavy * heavy_cap) // max(light_cap, 1)))
